@@ -37,6 +37,17 @@ impl Client {
         }
 
         let full_url = req.uri().to_string();
+        // wait until the connection has finished the previous exchange, a request sent while the
+        // dispatcher is not ready yet is rejected with 'operation was canceled'
+        self.sender.ready().await.map_err(|e| {
+            Error::Hyper(HyperErrorType::Custom(
+                format!(
+                    "Host connection is not ready to send request to {}",
+                    full_url
+                ),
+                e,
+            ))
+        })?;
         self.sender.send_request(req).await.map_err(|e| {
             Error::Hyper(HyperErrorType::Custom(
                 format!("Failed to send request to {}", full_url),
